@@ -403,56 +403,37 @@ def scanAnycast (s : Str) : Outcome Anycast :=
 def goSlice (s : Str) (lo hi : Nat) : Outcome Str :=
   if lo ≤ hi ∧ hi ≤ s.length then .ok ((s.take hi).drop lo) else .panic "slice bounds out of range"
 
+/-- the third part of the text: `Anycast(` … `)`, the inside scanned with Sscanf("%d,%d") -/
+def parseAnycastPart (p2 : Str) : Outcome Anycast :=
+  if !hasPrefix anycastLit p2 || !hasSuffixChar ')' p2 then .err "unknown MsgAddress format"
+  else (goSlice p2 anycastLit.length (p2.length - 1)).bind scanAnycast
+
+/-- `num, err := strconv.ParseInt(parts[0], 10, 32); err == nil && MinInt8 <= num && num <= MaxInt8` -/
+def isInt8Text (p0 : Str) : Bool :=
+  match parseInt p0 10 32 with
+  | .ok n => decide (-128 ≤ n) && decide (n ≤ 127)
+  | _ => false
+
+/-- "try AddrStd first": a 64-character second part without `_` at the end in an 8-bit workchain is a standard
+address, everything else a variable-length one -/
+def parseAddrBody (any : Option Anycast) (p0 p1 : Str) : Outcome MsgAddr :=
+  if p1.length = 64 ∧ isInt8Text p0 ∧ !hasSuffixChar '_' p1 then
+    match Hex.decodeChars p1 with
+    | Option.none => .err "hex"
+    | some dst => (parseInt p0 10 8).bind fun wc => .ok (.std any wc dst)
+  else
+    (fromFift p1).bind fun bits => (parseInt p0 10 32).bind fun wc => .ok (.var any wc bits)
+
 def parseMsgAddr (b : Str) : Outcome MsgAddr :=
   let value := trimQuote b
   if value.isEmpty then .ok .none
   else
     match splitOn ':' value with
     | [] => .panic "unreachable: Split returned no parts"
-    | [_] =>
-      match fromFift value with
-      | .ok bits => .ok (.extern bits)
-      | .err e => .err e
-      | .panic e => .panic e
-    | p0 :: p1 :: rest =>
-      if rest.length > 1 then .err "unknown MsgAddress format"
-      else
-        let any : Outcome (Option Anycast) :=
-          match rest with
-          | p2 :: _ =>
-            if !hasPrefix anycastLit p2 || !hasSuffixChar ')' p2 then .err "unknown MsgAddress format"
-            else match goSlice p2 anycastLit.length (p2.length - 1) with
-              | .ok dp => match scanAnycast dp with
-                | .ok a => .ok (some a)
-                | .err e => .err e
-                | .panic e => .panic e
-              | .err e => .err e
-              | .panic e => .panic e
-          | [] => .ok Option.none
-        match any with
-        | .err e => .err e
-        | .panic e => .panic e
-        | .ok any =>
-          let isInt8 : Bool := match parseInt p0 10 32 with
-            | .ok n => decide (-128 ≤ n) && decide (n ≤ 127)
-            | _ => false
-          if p1.length = 64 ∧ isInt8 ∧ !hasSuffixChar '_' p1 then
-            match Hex.decodeChars p1 with
-            | Option.none => .err "hex"
-            | some dst =>
-              match parseInt p0 10 8 with
-              | .ok wc => .ok (.std any wc dst)
-              | .err e => .err e
-              | .panic e => .panic e
-          else
-            match fromFift p1 with
-            | .err e => .err e
-            | .panic e => .panic e
-            | .ok bits =>
-              match parseInt p0 10 32 with
-              | .ok wc => .ok (.var any wc bits)
-              | .err e => .err e
-              | .panic e => .panic e
+    | [_] => (fromFift value).bind fun bits => .ok (.extern bits)
+    | [p0, p1] => parseAddrBody Option.none p0 p1
+    | [p0, p1, p2] => (parseAnycastPart p2).bind fun a => parseAddrBody (some a) p0 p1
+    | _ => .err "unknown MsgAddress format"
 
 /-! ## wrappers around codecs owned by other slices (modelled as parameters) -/
 
